@@ -84,6 +84,9 @@ type MemConn struct {
 	// Cap > 0 bounds the bytes buffered towards the peer: Write blocks while
 	// that many bytes are pending.
 	Cap int
+	// Sync makes Write behave like net.Pipe: it returns only when the peer
+	// has read everything (or an end was closed).
+	Sync bool
 	// Frag enables read fragmentation choices.
 	Frag bool
 	// OnOp, when set, is asked before every Read/Write (idx counts the
@@ -277,7 +280,17 @@ func (c *MemConn) Write(p []byte) (int, error) {
 	c.OpLog = append(c.OpLog, OpRec{"write", len(q), ferr != nil})
 	// second point: the peer may react before Write has returned
 	c.inWrite = true
-	vrt.Yield()
+	if c.Sync {
+		vrt.Block(vrt.KIO, "write-sync "+c.name, c, func() bool {
+			return len(c.wr.data) == 0 || c.closed || c.wr.rclosed
+		})
+		if len(c.wr.data) > 0 {
+			c.inWrite = false
+			return 0, io.ErrClosedPipe
+		}
+	} else {
+		vrt.Yield()
+	}
 	c.inWrite = false
 	return len(q), ferr
 }
